@@ -199,6 +199,37 @@ def history_divergence(plans, hashseed):
     return first_divergence(alone["comparable"], after["comparable"]) or {"where": "digest"}
 
 
+def history_violations(plans, hashseed):
+    """In-process violations of the LAST plan when `plans` run in order in one fresh interpreter."""
+    w = WorkerProc(hashseed)
+    try:
+        last = w.request({"t": "plans", "plans": plans, "want_log_last": True})["results"][-1]
+    finally:
+        w.close()
+    return {v["sig"]: v for v in last["violations"]}
+
+
+def minimise_history_violation(plans, hashseed, sig, budget_s=180):
+    t0 = time.time()
+    tests = 0
+    pred, last = list(plans[:-1]), plans[-1]
+    chunk = max(1, len(pred) // 2)
+    while pred and time.time() - t0 < budget_s:
+        i = 0
+        progressed = False
+        while i < len(pred) and time.time() - t0 < budget_s:
+            cand = pred[:i] + pred[i + chunk:]
+            tests += 1
+            if sig in history_violations(cand + [last], hashseed):
+                pred, progressed = cand, True
+            else:
+                i += chunk
+        if chunk == 1 and not progressed:
+            break
+        chunk = max(1, chunk // 2)
+    return pred + [last], tests
+
+
 def i5_sig(prop, div):
     return divergence_sig(prop, div).replace("/I4/", "/I5/")
 
@@ -615,6 +646,7 @@ class Run:
                 for v in res["violations"]:
                     sig_counts[v["sig"]] = sig_counts.get(v["sig"], 0) + 1
                     if v["sig"] not in candidates:
+                        v["_where"] = here
                         candidates[v["sig"]] = Candidate(v["sig"], v["inv"], res["index"], [hs], v)
             slot = pending.setdefault(b, {})
             slot[r] = (hs, sorted(results, key=lambda x: x["index"]))
@@ -662,7 +694,7 @@ class Run:
         }
 
 
-def write_replay(prop, seed, index, plan, hashseeds, sig, detail, history=None):
+def write_replay(prop, seed, index, plan, hashseeds, sig, detail, history=None, expect=None):
     os.makedirs(os.path.join(HERE, "replays"), exist_ok=True)
     name = f"{prop}-{seed}-{index}-{hashlib.sha256(sig.encode()).hexdigest()[:8]}.json"
     path = os.path.join(HERE, "replays", name)
@@ -671,7 +703,11 @@ def write_replay(prop, seed, index, plan, hashseeds, sig, detail, history=None):
     if history is not None:
         doc["kind"] = "history"
         doc["plans"] = history
+        if expect:
+            doc["expect"] = expect
         doc["how"] = ("execute `plans` in order in one fresh interpreter (PYTHONHASHSEED = "
+                      "hash_seeds[0]); the last plan shows the violation `signature`, which it does "
+                      "not show when executed alone") if expect == "violation" else ("execute `plans` in order in one fresh interpreter (PYTHONHASHSEED = "
                       "hash_seeds[0]); execute the last plan alone in another; the comparable "
                       "logs of the last plan differ")
     else:
@@ -684,6 +720,16 @@ def write_replay(prop, seed, index, plan, hashseeds, sig, detail, history=None):
 def replay(path):
     with open(path) as fh:
         rp = json.load(fh)
+    if rp.get("kind") == "history" and rp.get("expect") == "violation":
+        got = history_violations(rp["plans"], rp["hash_seeds"][0])
+        if rp["signature"] in got:
+            print(f"reproduced: {rp['signature']} (after {len(rp['plans']) - 1} earlier session(s) "
+                  f"in the same interpreter)")
+            print(json.dumps(got[rp["signature"]], indent=1, sort_keys=True)[:4000])
+            print(f"VIOLATION property={rp['property']} replay={path}")
+            return EXIT_VIOLATION
+        print(f"not reproduced: expected {rp['signature']}, got {sorted(got)}")
+        return EXIT_OK
     if rp.get("kind") == "history":
         div = history_divergence(rp["plans"], rp["hash_seeds"][0])
         got = i5_sig(rp["property"], div) if div else None
@@ -768,9 +814,33 @@ def check(prop, tier, seed):
             else:
                 sig = key
                 if sig not in sigs:
-                    print(f"HARNESS-ERROR: violation {sig} at plan {cand.index} did not reproduce "
-                          f"in a fresh interpreter (hash seed {hashseeds})")
-                    return EXIT_HARNESS
+                    # not reproducible from the session alone: does it need the sessions the
+                    # interpreter ran before (state leaking between sessions / instances)?
+                    from . import generators as _g
+
+                    where = cand.detail.get("_where") or {}
+                    hist = out["histories"].get(tuple(where.get("wid", ())))
+                    hplans = None
+                    if hist and hist[where["pos"]] == cand.index:
+                        hplans = [_g.generate(prop, seed, i) for i in hist[: where["pos"] + 1]]
+                    if not hplans or sig not in history_violations(hplans, where["hs"]):
+                        print(f"HARNESS-ERROR: violation {sig} at plan {cand.index} reproduced "
+                              f"neither in a fresh interpreter (hash seed {hashseeds}) nor from "
+                              f"the interpreter's history")
+                        return EXIT_HARNESS
+                    if sig in open_sigs:
+                        known_hit.append((sig, out["sig_counts"].get(key, 0)))
+                        continue
+                    small, tests = minimise_history_violation(hplans, where["hs"], sig)
+                    got = history_violations(small, where["hs"])
+                    if sig not in got:
+                        small, got = hplans, history_violations(hplans, where["hs"])
+                    det = dict(got[sig])
+                    det["sessions_before"] = len(small) - 1
+                    path = write_replay(prop, seed, cand.index, None, [where["hs"]], sig, det,
+                                        history=small, expect="violation")
+                    reported.append((sig, path, tests))
+                    continue
             if sig in open_sigs:
                 known_hit.append((sig, out["sig_counts"].get(key, 0)))
                 continue
